@@ -435,7 +435,9 @@ func runC13(r *Run) {
 				}
 			}
 			if okInc && fs.cmp(func(cm cmp) bool { return cm.Op == "==" && sumTerms(cm.L) == "1+Value" && exprString(cm.R) == nonceP }) &&
-				fs.cmp(func(cm cmp) bool { return cm.Op == "==" && lastField(cm.L) == "FeederID" && exprString(cm.R) == feederP }) {
+				fs.cmp(func(cm cmp) bool {
+					return cm.Op == "==" && lastField(cm.L) == "FeederID" && exprString(cm.R) == feederP
+				}) {
 				nWok++
 			}
 		}
